@@ -28,16 +28,17 @@ J = pb.PEL(pb.SRC(ascii=b"BD8D3333", flags=1, callouts=_co()), pb.UD(b"\x01\x02\
 
 MODES = ["l", "a", "n", "plid", "src", "j", "ahex", "lrev", "bmc", "nE", "plidhex"]
 KINDS = ["empty", "rand12", "trunc:60-76", "trunc:200-216", "trunc:296-305", "corrupt:0-4", "corrupt:48-52", "corrupt:72-76",
-         "corrupt:83-84", "corrupt:212-214", "corrupt:214-215", "corrupt:215-216", "corrupt:154-156", "corrupt:156-157", "subdir",
+         "corrupt:83-84", "corrupt:212-214", "corrupt:214-215", "corrupt:215-216", "corrupt:154-156", "corrupt:156-157", "corrupt:186-187", "subdir",
          "subdir-only", "trunc:48-72"]
-CASES = ["%s/%s" % (m, k) for m in MODES for k in KINDS] + ["a/corrupt:214-215:v40", "l/corrupt:214-215:v40"]
-QUICK = ["a/corrupt:0-4", "nE/trunc:48-72", "plidhex/trunc:200-216", "l/subdir-only", "bmc/corrupt:0-4", "a/corrupt:214-215:v40", "l/corrupt:214-215:v40", "a/trunc:200-216", "n/corrupt:48-52", "j/corrupt:83-84", "plid/rand12",
+CASES = ["%s/%s" % (m, k) for m in MODES for k in KINDS] + ["a/empty:pct", "l/rand12:pct", "j/empty:pct", "a/corrupt:214-215:v40", "l/corrupt:214-215:v40"]
+QUICK = ["n/empty", "n/rand12", "l/corrupt:186-187", "a/empty:pct", "a/corrupt:0-4", "nE/trunc:48-72", "plidhex/trunc:200-216", "l/subdir-only", "bmc/corrupt:0-4", "a/corrupt:214-215:v40", "l/corrupt:214-215:v40", "a/trunc:200-216", "n/corrupt:48-52", "j/corrupt:83-84", "plid/rand12",
          "src/empty", "ahex/corrupt:0-4", "a/subdir", "l/corrupt:83-84", "lrev/trunc:60-76"]
 HARNESSES = [{"fn": "h_isolate", "cases": CASES, "quick_cases": QUICK, "timeout": {"quick": 120, "thorough": 900}}]
 BOUNDS = {"directory": "two well-formed logs + one extra file whose sorted position (first / middle / last) is symbolic",
           "extra file": "empty; 12 symbolic bytes; truncation of a 305-byte log at a symbolic offset (3 windows); one "
                         "corrupted byte (symbolic offset in a window, symbolic value) in PH id, UH id, SRC header, SRC word "
-                        "count, callout header, PCE identity; a sub-directory with files",
+                        "count, callout header, FRU identity size byte, PCE identity; a sub-directory with files; a junk file name "
+                        "containing printf-style directives",
           "modes": "-l, -a, -n, -n -E, --plid, --plid --hex, --src, -j, -a --hex, -l --reverse, --bmc-id"}
 ASSUMPTIONS = ["file system, print, argparse replaced by the in-memory world (E1, E2, E4); print / sys of src.py and comp_id.py "
                "are routed to the same recorder", "JSON text replaced by the token (M7); documents are compared through the "
@@ -157,11 +158,15 @@ def h_isolate() -> bool:
     """
     mode, kind = CASE.split("/")
     pos = sym_int("pos", 0, 2)
+    pct = kind.endswith(":pct")             # a file name with printf-style directives in it
+    kind = kind[:-4] if pct else kind
     name = "0junk"
     if pos == 1:
         name = "f_junk"
     elif pos == 2:
         name = "z_junk"
+    if pct:
+        name += "%d 100%s.%(x)s"
     good = [("n_50000002", G2), ("a_50000001", G1)]
     subdirs = None
     extra = None
@@ -194,6 +199,7 @@ def h_isolate() -> bool:
     else:
         subdirs = {"archive": [("x_50000009", J), ("junk", b"zz")]}
     try:
+      with deadline(60 if SYMBOLIC else 20):
         w0, s0 = _baseline(mode)
         if subdirs is not None:
             w1, s1 = _run(good, mode, subdirs=subdirs)
@@ -209,6 +215,8 @@ def h_isolate() -> bool:
             else:
                 wj, sj = _run([(name, extra)], mode)
                 alone_nothing = _nothing(wj, mode)
+    except HangDetected as e:
+        return verdict(False, obs={"hang": repr(e)})
     except Exception as e:
         return verdict(False, obs={"exception": repr(e)})
     conds = [s0 == 0, s1 == 0, _well_framed(w1, mode)]
